@@ -275,7 +275,7 @@ func synNetwork() *consensus.Network {
 	n.HardforkASIC.OakTime = 10000 * time.Second
 	n.HardforkOak.GenesisTimestamp = time.Unix(1_600_000_000, 0)
 	n.HardforkV2.RequireHeight, n.HardforkV2.FinalCutHeight = 1, 1 // genesis (height 0) allocates through a v1 transaction
-	n.HardforkFoundation.PrimaryAddress = types.VoidAddress // no subsidy leaves
+	n.HardforkFoundation.PrimaryAddress = types.VoidAddress        // no subsidy leaves
 	n.HardforkFoundation.FailsafeAddress = types.VoidAddress
 	return n
 }
